@@ -172,10 +172,17 @@ Definition decode_file_sr (o : opts) (boxes : list (topshape * N)) : res fstate 
 
 (* ------------------------------------------------------------------ canonical byte strings *)
 (* A canonical string is what the encoders write for a tree: compact 8-byte headers whose size field is
-   8 + the body length.  Leaves carry their payload (opaque to the loops). *)
+   8 + the body length, or (CLarge) the 16-byte header EncodeHeaderWithSize writes for largeSize = true.
+   Leaves carry their payload (opaque to the loops). *)
 Inductive ctree :=
 | CLeaf (name payload : list N)
-| CNode (name : list N) (kids : list ctree).
+| CNode (name : list N) (kids : list ctree)
+| CLarge (name payload : list N).   (* a leaf written with the 16-byte largesize header: size field 1, 64-bit size
+                                       16 + len payload (mdat with LargeSize set is the one box whose Encode writes it) *)
+
+Definition be8 (n : N) : list N :=
+  [(n / 72057594037927936) mod 256; (n / 281474976710656) mod 256; (n / 1099511627776) mod 256; (n / 4294967296) mod 256;
+   (n / 16777216) mod 256; (n / 65536) mod 256; (n / 256) mod 256; n mod 256].
 
 Fixpoint cenc (c : ctree) : list N :=
   match c with
@@ -183,6 +190,7 @@ Fixpoint cenc (c : ctree) : list N :=
   | CNode nm kids =>
       let body := (fix go (l : list ctree) : list N := match l with [] => [] | k :: r => cenc k ++ go r end) kids in
       be4 (8 + lenN body) ++ nm ++ body
+  | CLarge nm p => be4 1 ++ nm ++ be8 (16 + lenN p) ++ p
   end.
 Fixpoint cencs (l : list ctree) : list N := match l with [] => [] | k :: r => cenc k ++ cencs r end.
 
